@@ -151,11 +151,15 @@ def main(argv):
         return 2
 
     # ---- 1b. regression: replay files of repaired findings must pass on the current tree
-    regress = sorted(f for f in os.listdir(os.path.join(ROOT, "findings")) if f.startswith(prop + "_") and f.endswith(".json")) \
-        if os.path.isdir(os.path.join(ROOT, "findings")) else []
+    # (findings/ = histories that exposed a genuine, now repaired defect; regress/ = histories on which an
+    #  earlier version of a check raised a false alarm)
+    regress = []
+    for d in ("findings", "regress"):
+        if os.path.isdir(os.path.join(ROOT, d)):
+            regress += sorted(os.path.join(d, f) for f in os.listdir(os.path.join(ROOT, d)) if f.startswith(prop + "_") and f.endswith(".json"))
     regress_failed = []
     for f in regress:
-        doc = json.load(open(os.path.join(ROOT, "findings", f)))
+        doc = json.load(open(os.path.join(ROOT, f)))
         o = runner.run_one(lambda steps, _p=doc["probe_seed"]: run_steps(steps, _p), doc["steps"], wall=opts["wall"] * 2)
         if not o.get("ok"):
             harness_errors.append("regression %s: %s" % (f, o.get("err")))
@@ -240,8 +244,8 @@ def main(argv):
     for kid, h in known_hits.items():
         print("KNOWN-FINDING: property=%s %s [%s; seeds %s]" % (prop, h["entry"]["detail"], kid, h["seeds"][:3]))
     for f, vio in regress_failed:
-        print("VIOLATION property=%s replay=%s" % (prop, os.path.join(ROOT, "findings", f)))
-        print("  repaired finding is back: class=%s %s" % (vio["class"], vio["detail"][:300]))
+        print("VIOLATION property=%s replay=%s" % (prop, os.path.join(ROOT, f)))
+        print("  regression replay fails again: class=%s %s" % (vio["class"], vio["detail"][:300]))
     for s, cls, path, vio in new_violations:
         print("VIOLATION property=%s replay=%s" % (prop, path))
         print("  seed=%d class=%s %s" % (s, cls, vio["detail"][:300]))
